@@ -1081,6 +1081,15 @@ class WorkerPool:
                             worker_process.join(timeout=0.01)
                             if not worker_process.is_alive():
                                 break
+
+                        # A worker that stopped by itself has marked itself as dead. If it didn't, it died before it was
+                        # done (e.g., it got killed in its exit function, in which case its exit results are lost). The
+                        # unexpected death handler reports that shortly, so we wait for its verdict
+                        while (self._workers[wid] is worker_process and self._worker_comms.is_worker_alive(wid) and
+                               not self._worker_comms.exception_thrown() and
+                               self._unexpected_death_handler_thread is not None and
+                               self._unexpected_death_handler_thread.is_alive()):
+                            time.sleep(0.01)
                         if self._worker_comms.exception_thrown():
                             self._handle_exception()
                     except ValueError:
@@ -1112,6 +1121,11 @@ class WorkerPool:
             # Stop handler threads and join and close the results queue if we're not keeping the workers alive
             if not keep_alive:
                 self._stop_handler_threads()
+
+                # The unexpected death handler marks a worker as dead before it reports the death. Now that the handler has
+                # been stopped its verdict is final
+                if self._worker_comms.exception_thrown():
+                    self._handle_exception()
                 self._worker_comms.join_results_queues(keep_alive=False)
 
     join = stop_and_join
